@@ -171,7 +171,7 @@ def define():
     ins("Raw", False, "none", "stack", "heap", "P8D", tier="rot3")
     # ---------------- thorough: full cross product on class S, more constraint sets / backends, L = 4
     for elem in ("B1", "H2", "B3D", "W8", "W8D"):
-        for b in ("heap", "stack", "reloc", "stackn"):
+        for b in (("heap", "stack", "reloc", "stackn") if elem in ("B1", "B3D", "W8D") else ("heap",)):
             for src in SRCS:
                 for push in (False, True):
                     ins(src, push, "none", b, "heap" if b != "heap" else "stack", elem, L=4, tier="thorough")
